@@ -98,6 +98,10 @@ class C05(framework.PropertyCheck):
         sigset = set(signals)
         steps = [('loadvcd', 't0', gen_trace.render(vf)), ('eval', 'eorg', f'(step {i})')]
         exps = [('ok',), ('any',)]
+        if case['script'] % 4 == 2:
+            # an id that is not loaded is "unloaded" first: nothing changes
+            steps = [steps[0], ('unload', 'nosuch9')] + steps[1:]
+            exps = [exps[0], ('any',)] + exps[1:]
         if case['script'] % 4 == 1:
             # another file with other scopes has been loaded, asked for its scopes, and unloaded: the names are those of the file that is there now
             aux = {'header': [['scope', 'module', 'other'], ['var', 'wire', 1, '!', 'clk', None], ['scope', 'module', 'sub'],
@@ -240,7 +244,7 @@ class C05(framework.PropertyCheck):
                 a, b = r.choice(signals), r.choice(signals)
                 if '<' in a or '<' in b:
                     continue
-                add(f"(do (alias {a} '{b}) (list {a} {b} (reval {a} 0)))", ('val', ('L', True, (V(b), V(b), V(b)))))
+                add(f"(do (alias {a} '{b}) (list {a} {b} (reval {a} 0) (get \"{a}\") (get '{a})))", ('val', ('L', True, (V(b), V(b), V(b), V(b), V(b)))))
                 add(f'(do (unalias {a}) (list {a} {b}))', ('val', ('L', True, (V(a), V(b)))))
             elif kind == 'allscopes':
                 add('(list (all-scopes (list CS)) CS)', ('val', ('L', True, (('L', False, tuple(('L', True, (('S', s),)) for s in SCOPES)), ('S', '')))))
